@@ -183,4 +183,25 @@ Section W.
     rewrite !C. apply Rsum_perm. apply Permutation_map. exact HP.
   Qed.
 
+  (* C03: permuting the datasets — rows of a_jk together with their data — leaves
+     the value unchanged.  An element is (row of a_jk, (N_j, n_selected_j, pair table_j));
+     the ratios of a dataset are the stacked ratios of its own row. *)
+  Definition rd_data (x : list R * (R * nat * list (nat * nat * R))) : R * list R :=
+    (fst (fst (snd x)), sw_ratio Nm (fst x) (snd (fst (snd x))) (snd (snd x))).
+
+  Theorem multi_value_perm_rows opa ns (rd rd' : list (list R * (R * nat * list (nat * nat * R)))) :
+    Permutation rd rd' ->
+    multi_value Nm opa ns (f_j Nm (map fst rd)) (map rd_data rd)
+    = multi_value Nm opa ns (f_j Nm (map fst rd')) (map rd_data rd').
+  Proof.
+    intros HP. rewrite !multi_value_additive, !f_j_R.
+    assert (Et : Rsum (map Rsum (map fst rd)) = Rsum (map Rsum (map fst rd'))).
+    { apply Rsum_perm. apply Permutation_map. apply Permutation_map. exact HP. }
+    rewrite Et. set (t := Rsum (map Rsum (map fst rd'))).
+    assert (C : forall l : list (list R * (R * nat * list (nat * nat * R))),
+              combine (map (fun r => Rsum r / t) (map fst l)) (map rd_data l)
+              = map (fun x => (Rsum (fst x) / t, rd_data x)) l).
+    { induction l as [|x l IH]; [reflexivity|]. cbn [map combine]. now rewrite IH. }
+    rewrite !C, !map_map. apply Rsum_perm. apply Permutation_map. exact HP.
+  Qed.
 End W.
